@@ -164,8 +164,6 @@ def _l2(rec, case):
         fs = bspline.BSplineFunc(kvs, C[(Ellipsis,) + idx].copy())
         ok, c1 = guarded(rec, c, dict(sig, oracle_input='single component'), approx.project_L2, kvs, fs)
         if ok: rec.check_close('componentwise', float(np.abs(np.asarray(c1) - ch[(Ellipsis,) + idx]).max()), float(1e-11 * cond * (np.abs(C).max() + 1)), sig, c)
-    else:
-        rec.count('oracle:componentwise')
     # orthogonality of the residual for data outside the space (polynomial of a degree the p+1 point rule integrates exactly)
     pm = min(kv.p for kv in kvs)
     deg = pm + 1
